@@ -1,6 +1,7 @@
 import Scion.Model.Hidden
 import Scion.Proofs.Stores
 import Scion.Props.C27
+import Scion.Gen.StoresFacts
 /-!
 # C45 — Hidden segments are registered only by writers and served only to members
 
@@ -324,6 +325,22 @@ theorem served_only_to_members (groups : List Group) (localIA : IA) (ops : List 
   refine ⟨hdown _ ht, g, hg2, grp, hgrp, hmem, reg, hin, hgid, hw, ?_⟩
   obtain ⟨it, hit1, hit2⟩ := hit
   exact ⟨it, hit1, hit2.trans hid.symm⟩
+
+/-- T3: the checks of `Register` and `Segments`, `canRead`, `isAuthoritative` and the query /
+    insertion of `Storer.Get` / `Storer.Put` as they stand in the source (regenerated on every
+    run) are the ones the model transcribes, in this order -/
+theorem gen_hidden_decisions :
+    Scion.Gen.StoresFacts.registerConds =
+      ["!ok", "_, ok := group.Writers[reg.Peer.IA]; !ok",
+       "_, ok := group.Registries[h.LocalIA]; !ok", "s.Type != seg.TypeDown"] ∧
+    Scion.Gen.StoresFacts.segmentsConds =
+      ["len(req.GroupIDs) == 0", "!ok", "!canRead(req.Peer, group)",
+       "!isAuthoritative(s.LocalIA, group)"] ∧
+    Scion.Gen.StoresFacts.canReadReturns = ["return owner || registry || writer || reader"] ∧
+    Scion.Gen.StoresFacts.isAuthoritativeReturns = ["return auth"] ∧
+    Scion.Gen.StoresFacts.storerGetParams = ["EndsAt=[]addr.IA{ia}", "HPGroupIDs=convert(groups)"] ∧
+    Scion.Gen.StoresFacts.storerPutArgs = ["ctx", "seg", "convert([]GroupID{g})"] := by
+  refine ⟨by decide, by decide, by decide, by decide, by decide, by decide⟩
 
 /-! ## Non-vacuity -/
 
